@@ -19,6 +19,13 @@ functions (coq/Extract/Api_AbsGraph.v):
 A failure is a C02-type (a path that should not exist) or C01-type (a path that is missing) violation LOCALISED to the
 stage: the stage is part of the violation text and of the replay.
 
+Round 2: (1) at stage tvg-bubbles the real graph is also compared with the MODEL graph  lang (add_bubbles tx records)
+(api ag_bubbles; theorem add_bubbles_lang says that language is the haplotype set); (2) fusion graphs
+(<tx>_Fusion_<id>_*.json), circRNA graphs (<tx>_circRNA_<id>_*.json) and the main graphs of transcripts carrying
+alternative-splicing records are judged on the derived backbones of SpecFusion.fuse_gen / SpecAS.as_apply_all /
+SpecCirc.circ_linear (requests_for_ext; strings only, labels are not compared); known findings are recognised by the
+preconditions of the output-level signatures (ext_tags), never wider.
+
 What the dump cannot tell (jsonfy omits it): the `truncated`, `cleavage`, `npop_collapsed` flags of PVG nodes and the
 shared stop sink.  Consequence: with node collapsing active (--min-nodes-to-collapse reached) the engine re-splits
 merged nodes at non-site positions (pop_collapse_end_nodes) and marks them with flags the dump does not show; the
@@ -112,6 +119,7 @@ def requests_for(case, run, tx_id, gs, recs, stats):
         stats['paths_max_per_frame:%s' % ('<=10' if n <= 10 else '<=100' if n <= 100 else '<=1000' if n <= 1000 else '<=5000')] += 1
         meta = {'tx': tx_id, 'frame': f, 'strict': strict, 'coding': coding}
         reqs.append((('ag_tvg', [x, A['tvg_raw']['nodes'], st['tvg_raw'], f, True]), dict(meta, stage='tvg-bubbles', kind='tvg')))
+        reqs.append((('ag_bubbles', [x, A['tvg_raw']['nodes'], st['tvg_raw'], f]), dict(meta, stage='tvg-bubbles', kind='bb')))
         reqs.append((('ag_tvg', [x, A['tvg_dump']['nodes'], st['tvg_dump'], f, True]), dict(meta, stage='tvg-aligned', kind='tvg')))
         reqs.append((('ag_translate', [x, A['tvg_dump']['nodes'], st['tvg_dump'], A['pvg_tr']['nodes'], st['pvg_tr'], f, coding]),
                      dict(meta, stage='translate', kind='tr')))
@@ -124,6 +132,113 @@ def requests_for(case, run, tx_id, gs, recs, stats):
                          dict(meta, stage='final', kind='cl')))
     return reqs
 
+# ------------------------------------------------------------------ graphs on derived backbones (fusion / AS / circRNA)
+F_FUSJUNC, F_FUSDEL2, F_ASDONOR = CK.F_FUSJUNC, CK.F_FUSDEL2, 'C02-as-donor-record'
+MAX_EXT_RECORDS = 10          # 2^n record subsets are enumerated by bubble_spec (circRNA: 4 copies of every record, i.e. <= 2 records)
+
+def _plain_idmap(*graphs):
+    ids = sorted(set(v for g in graphs for n in g['nodes'] for v in n.get('variants', [])))
+    return {v: i for i, v in enumerate(ids)}
+
+def _frames_ext(case, tx_id, kind, gs):
+    if kind == 'circRNA':
+        return [0, 1, 2]
+    return frames_of(case, tx_id)
+
+def requests_for_ext(case, run, key, gs, by_tx, stats):
+    """stage requests for the graph `key` of a case carrying fusion / AS / circRNA records.
+    key = '<tx>' (main graph of a transcript with AS records), '<tx>|Fusion|<id>' or '<tx>|circRNA|<id>'"""
+    from harness.lib import cvgen2 as CG2
+    parts = key.split('|')
+    tx_id, kind, vid = parts[0], (parts[1] if len(parts) > 1 else 'AS'), (parts[2] if len(parts) > 2 else None)
+    need = ('tvg_raw', 'tvg_dump', 'pvg_tr', 'pvg_cl', 'pvg_dump')
+    if any(k not in gs for k in need):
+        stats['ext_graphs_incomplete'] += 1      # e.g. a fusion whose breakpoint lies before the start codon: no graph is built
+        return []
+    idmap = _plain_idmap(*[gs[k] for k in need])
+    A = {k: to_abs(gs[k], idmap) for k in need}
+    if any(a['cyclic'] for a in A.values()):
+        return [(None, {'stage': 'dump', 'tx': key, 'problem': 'a dumped graph has a cycle'})]
+    strict = int(run.get('mnc', 30)) >= NO_COLLAPSE
+    rule, exc = run['rule'], (run['exc'] if run['exc'] != 'None' else None)
+    same_final = gs['pvg_cl'] == gs['pvg_dump']
+    stats['ext_pvg_dump_equals_cleaved' if same_final else 'ext_pvg_dump_differs_from_cleaved'] += 1
+    # the backbone semantics
+    sem = None
+    if kind == 'Fusion':
+        f = next((f for f in case.get('fusions', []) if f['id'] == vid), None)
+        if f is not None:
+            a = CK.fusion_args(case, f, run, by_tx, prots=[])
+            nrec = len(a[0][6]) + len(a[3]) + len(a[4][6])
+            sem = ('ag_ext_fusion', a, nrec, f)
+    elif kind == 'circRNA':
+        recs = [r for r in case.get('circ_records', []) if r['tx'] == tx_id]
+        cks = CG2.circ_inputs(case, tx_id, run, prots=[])
+        for r, ck in zip(recs, cks):
+            if r['row']['id'] == vid:
+                sem = ('ag_ext_circ', [ck], 4 * len(ck[2]), r)
+    else:
+        asr = CG2.as_inputs(case, tx_id)
+        x = CG.tx_input(case, tx_id, by_tx.get(tx_id, []), run, prots=[])
+        nrec = len(x[6]) + sum(len(r[3]) for r in asr)
+        sem = ('ag_ext_as', [x, asr], nrec, asr)
+    reqs = []
+    for fr in _frames_ext(case, tx_id, kind, gs):
+        st = {k: A[k]['starts'].get(fr, []) for k in need}
+        n = max(npaths(A[k], st[k]) for k in need)
+        if n > MAX_PATHS or n == 0:
+            stats['ext_skipped_too_many_paths' if n else 'ext_frame_absent'] += 1
+            continue
+        stats['ext_frames_checked:' + kind] += 1
+        donor_ids = set()
+        if kind == 'AS':
+            rows = [r_ for r_ in case.get('as_records', []) if r_['tx'] == tx_id]
+            donor_ids = set(r_['row']['id'] for r_, a_ in zip(rows, sem[3]) if a_[2] and a_[3])
+        meta = {'tx': key, 'frame': fr, 'strict': strict, 'coding': False, 'ext': kind, 'sem': sem,
+                'idnames': sorted(idmap, key=lambda v: idmap[v]), 'donor_ids': donor_ids}
+        if sem is not None and sem[2] <= MAX_EXT_RECORDS:
+            for stage, gk in (('tvg-bubbles', 'tvg_raw'), ('tvg-aligned', 'tvg_dump')):
+                if sem[0] == 'ag_ext_as':
+                    arg = sem[1] + [A[gk]['nodes'], st[gk], fr, bool(run.get('linear_must', True))]
+                else:
+                    arg = sem[1] + [A[gk]['nodes'], st[gk], fr]
+                reqs.append(((sem[0], arg), dict(meta, stage=stage, kind='ext')))
+        else:
+            stats['ext_backbone_check_skipped:' + kind] += 1
+        reqs.append((('ag_translate_plain', [A['tvg_dump']['nodes'], st['tvg_dump'], A['pvg_tr']['nodes'], st['pvg_tr'], len(idmap)]),
+                     dict(meta, stage='translate', kind='trp')))
+        reqs.append((('ag_cleave', [rule, exc, A['pvg_tr']['nodes'], st['pvg_tr'], A['pvg_cl']['nodes'], st['pvg_cl']]),
+                     dict(meta, stage='cleave', kind='cl')))
+        if not same_final:
+            reqs.append((('ag_cleave', [rule, exc, A['pvg_cl']['nodes'], st['pvg_cl'], A['pvg_dump']['nodes'], st['pvg_dump']]),
+                         dict(meta, stage='final', kind='cl')))
+    return reqs
+
+def ext_tags(case, run, meta, strings, by_tx):
+    """known-finding signatures for strings of an ext graph that no permitted backbone spells (never wider than
+    the output-level signatures of cvcheck / cvsig2)"""
+    kind, sem = meta['ext'], meta['sem']
+    tags = [None] * len(strings)
+    if kind == 'Fusion' and sem is not None:
+        f = sem[3]
+        from harness.lib import cvgen_fus as CF
+        fi = CF.fusion_inputs(case, f)
+        dr = by_tx.get(f['donor_tx'], []); ar = by_tx.get(f['acc_tx'], [])
+        bp, abp = fi['bp'], fi['abp']
+        near = [r for r in dr if len(r['alt']) != r['e'] - r['s'] and bp - 3 <= r['e'] <= bp + 3] + \
+               [r for r in ar if len(r['alt']) != r['e'] - r['s'] and abp - 3 <= r['s'] <= abp + 3]
+        if near and not fi['mid']:
+            a = sem[1]
+            oks = O.call('ag_ext_fusion_moved', [a[0], bp, a[4], abp, meta['frame'], strings])
+            tags = [F_FUSJUNC if ok else t for ok, t in zip(oks, tags)]
+        if CK.fusion_fs_coupling(case, f, by_tx):
+            tags = [t or F_FUSDEL2 for t in tags]
+    elif kind == 'AS' and sem is not None:
+        # an <INS>/<SUB> record whose donor segment carries small records (coarse tier of C02-as-donor-record)
+        if any(r[2] and r[3] for r in sem[3]):
+            tags = [F_ASDONOR] * len(strings)
+    return tags
+
 def _ids(recs, idx):
     return [recs[i]['id'] if 0 <= i < len(recs) else '?%d' % i for i in idx]
 
@@ -135,6 +250,9 @@ def interpret(meta, out, recs, run, stats):
     if isinstance(out, str):
         return [('oracle error %s at %s' % (out[:120], where), None, 'C02')]
     if not out[0]:
+        if meta['kind'] == 'bb':
+            stats['model_side_conditions_failed'] += 1      # records not sorted / outside the transcript: model not applicable
+            return []
         return [('graph of %s is not a topologically numbered DAG (conversion failed)' % where, None, 'C02')]
     if meta['kind'] == 'tvg':
         stats['paths:' + stage] += out[1]
@@ -144,6 +262,31 @@ def interpret(meta, out, recs, run, stats):
         for m in out[3]:
             res.append(('%s: no path spells the transcript carrying the obliged haplotype %s [C01-type: missing path]' % (
                 where, [recs[i]['id'] for i, b in enumerate(m) if b]), None, 'C01'))
+    elif meta['kind'] == 'bb':
+        # the real graph against the MODEL algorithm add_bubbles (theorem add_bubbles_lang: its language is the haplotype set)
+        stats['model_words'] += out[2]
+        stats['model_words_not_in_real_unobliged'] += out[5]
+        stats['model_equals_real' if (not out[3] and not out[4] and not out[5]) else 'model_superset_of_real' if (not out[3] and not out[4]) else 'model_DIFFERS'] += 1
+        for lab, ids in out[3]:
+            res.append(('%s: the path carrying %s (...%s, %d nt) is not a word of the model graph add_bubbles(transcript, records) [C02-type: a path the bubble algorithm cannot produce]' % (
+                where, _ids(recs, ids), O.U(lab)[-30:], len(lab)), None, 'C02'))
+        for lab, ids in out[4]:
+            res.append(('%s: the model graph add_bubbles spells the obliged haplotype %s, the real graph does not [C01-type: missing path]' % (
+                where, _ids(recs, ids)), None, 'C01'))
+    elif meta['kind'] == 'trp':
+        stats['paths:' + stage] += out[2]
+        names = meta.get('idnames', [])
+        def tag_of(ids):
+            # C02-as-donor-record: the path carries an <INS>/<SUB> record whose donor segment holds small records
+            # (the output-level coarse tier: "reported under a header naming such a record")
+            on_path = set(names[i] for i in ids if 0 <= i < len(names))
+            return F_ASDONOR if (on_path & meta.get('donor_ids', set())) else None
+        for lab, ids in out[3]:
+            res.append(('%s: the peptide path %s...%s carrying %s is not the codon-wise translation of any DNA path with the same records [C02-type]' % (
+                where, O.U(lab)[:12], O.U(lab)[-25:], sorted(set(names[i] for i in ids if 0 <= i < len(names)))), tag_of(ids), 'C02'))
+        for lab, ids in out[4]:
+            res.append(('%s: the DNA path carrying %s (%d nt) has no peptide path spelling its translation [C01-type: missing path]' % (
+                where, sorted(set(names[i] for i in ids if 0 <= i < len(names))), len(lab)), tag_of(ids), 'C01'))
     elif meta['kind'] == 'tr':
         stats['paths:' + stage] += out[2]
         for lab, ids in out[3]:
@@ -214,8 +357,15 @@ def run_batch(ctx, cases, violations, stats, tag='cvg'):
             stats['runs:graph'] += 1
             if '__exc__' in r:
                 stats['crashed:' + r['__exc__']] += 1
-                violations.append({'what': 'stream graph: callVariant aborted with %s (%s)' % (r['__exc__'], r.get('msg', '')[:120]),
-                                   'replay_obj': replay_obj(c, run, 'crash', None), 'no_input': False})
+                class _E: pass
+                e = _E(); e.exc, e.case = r, c
+                v = {'what': 'stream graph: callVariant aborted with %s (%s)' % (r['__exc__'], r.get('msg', '')[:120]),
+                     'replay_obj': replay_obj(c, run, 'crash', None), 'no_input': False}
+                if CK.is_fusion_align_crash(e):
+                    v['finding'] = CK.F_FUSALIGN
+                elif CK.is_fusion_crash(e):
+                    v['finding'] = CK.F_FUSCRASH
+                violations.append(v)
                 continue
             if r.get('snapshot_errors'):
                 stats['snapshot_errors'] += 1
@@ -226,9 +376,14 @@ def run_batch(ctx, cases, violations, stats, tag='cvg'):
                     stats['no_dump_for_tx_with_records'] += 1      # e.g. every record filtered (start codon): counted, not judged
             if graphs:
                 stats['nontrivial'] += 1
+            as_txs = set(r_['tx'] for r_ in c.get('as_records', []))
             for tx, gs in graphs.items():
                 stats['graphs'] += 1
-                for q, meta in requests_for(c, run, tx, gs, by_tx.get(tx, []), stats):
+                if '|' in tx or tx in as_txs:
+                    rq = requests_for_ext(c, run, tx, gs, by_tx, stats)
+                else:
+                    rq = requests_for(c, run, tx, gs, by_tx.get(tx, []), stats)
+                for q, meta in rq:
                     meta.update(ci=ci, ri=ri)
                     if q is None:
                         violations.append({'what': 'stream graph: %s (transcript %s)' % (meta['problem'], tx),
@@ -240,7 +395,11 @@ def run_batch(ctx, cases, violations, stats, tag='cvg'):
     for meta, o in zip(metas, outs):
         c = cases[meta['ci']]; run = c['runs'][meta['ri']]
         recs = recs_of[meta['ci']].get(meta['tx'], [])
-        for what, tag_, ctype in interpret(meta, o, recs, run, stats):
+        if meta['kind'] == 'ext':
+            found = interpret_ext(meta, o, c, run, recs_of[meta['ci']], stats)
+        else:
+            found = interpret(meta, o, recs, run, stats)
+        for what, tag_, ctype in found:
             key = (meta['ci'], meta['ri'], meta['stage'], tag_, ctype)
             if key in per:
                 per[key]['n'] += 1
@@ -254,21 +413,53 @@ def run_batch(ctx, cases, violations, stats, tag='cvg'):
             vio['finding'] = v['tag']
         violations.append(vio)
 
+def interpret_ext(meta, out, case, run, by_tx, stats):
+    """reply of ag_ext_fusion / ag_ext_as / ag_ext_circ -> list of (what, finding or None, ctype)"""
+    stage, kind = meta['stage'], meta['ext']
+    where = 'stage %s, %s graph %s, reading frame %d' % (stage, kind, meta['tx'], meta['frame'])
+    if isinstance(out, str):
+        return [('oracle error %s at %s' % (out[:120], where), None, 'C02')]
+    if not out[0]:
+        return [('graph of %s is not a topologically numbered DAG (conversion failed)' % where, None, 'C02')]
+    stats['ext_strings:%s:%s' % (kind, stage)] += out[1]
+    stats['ext_permitted_strings:%s' % kind] += out[2]
+    res = []
+    uns = [O.U(s_) for s_ in out[3]]
+    if uns:
+        tags = ext_tags(case, run, meta, uns, by_tx)
+        for tag in sorted(set(tags), key=lambda t: t or ''):
+            ss = [u for u, t in zip(uns, tags) if t == tag]
+            res.append(('%s: %d path string(s), e.g. ...%s (%d nt), are spelled by no compatible record combination on the %s backbone of the specification [C02-type: a path that no haplotype explains]' % (
+                where, len(ss), ss[0][-36:], len(ss[0]), kind), tag, 'C02'))
+    mis = [O.U(s_) for s_ in out[4]]
+    if mis:
+        tag = None
+        if kind == 'AS' and meta['sem'] is not None and any(r[2] and r[3] for r in meta['sem'][3]):
+            tag = F_ASDONOR
+        res.append(('%s: %d obliged haplotype sequence(s) of the %s backbone, e.g. ...%s, are spelled by no path [C01-type: missing path]' % (
+            where, len(mis), kind, mis[0][-36:]), tag, 'C01'))
+    return res
+
 def replay_obj(case, run, stage, tx):
     c = dict(CK.strip_case(case), runs=[run])
     return {'kind': 'case', 'what': 'graph', 'stage': stage, 'tx': tx, 'case': c}
 
 # ------------------------------------------------------------------ generator
 def gen_cases(ctx, n):
-    """linear transcripts, 1-6 SNV / MNV / INDEL records (cvgen.gen_case), limits disabled.
-    strict part: trypsin, exception off, node collapsing disabled (boundaries = sites);
-    collapse part: trypsin, default / small collapse knobs (every site is a boundary, language unchanged);
-    tagged part: trypsin_exception on, other look-ahead rules (deviations classified by the D14 / D14b signatures)"""
+    """~70 %: linear transcripts, 1-6 SNV / MNV / INDEL records (cvgen.gen_case), limits disabled.
+      strict part: trypsin, exception off, node collapsing disabled (boundaries = sites);
+      collapse part: trypsin, default / small collapse knobs (every site is a boundary, language unchanged);
+      tagged part: trypsin_exception on, other look-ahead rules (deviations classified by the D14 / D14b signatures)
+    ~30 %: graphs on derived backbones (round 2): fusion (general breakpoints, cvgen_fus.gen_fusion_case2),
+      alternative splicing (cvgen2.gen_as_case: <DEL>/<INS>/<SUB>, half with donor records) and circRNA
+      (cvgen2.gen_circ_case, <= 2 small records), trypsin, exception off, collapsing disabled"""
+    from harness.lib import cvgen2 as CG2, cvgen_fus as CF
     rng = ctx.rng
     rc = CK.rule_classes()
     la_other = [r for r in rc['la'] if r != 'trypsin']
     out = []
-    for i in range(n):
+    n_ext = int(round(n * 0.3))
+    for i in range(n - n_ext):
         c = CG.gen_case(rng, coding_p=0.7, nvar=rng.choice([1, 2, 2, 3, 3, 4, 4, 5, 6]))
         x = rng.random()
         if x < 0.6:
@@ -280,6 +471,18 @@ def gen_cases(ctx, n):
         else:
             run = dict(CG.gen_run(rng, rule=la_other[i % len(la_other)], exc_on=False), mnc=NO_COLLAPSE); part = 'otherrule'
         c['runs'] = [run]
+        c['stream'] = 'graph'
+        c['part'] = part
+        out.append(c)
+    for i in range(n_ext):
+        x = rng.random()
+        if x < 0.4:
+            c = CF.gen_fusion_case2(rng); part = 'fusion'
+        elif x < 0.75:
+            c = CG2.gen_as_case(rng, nvar=rng.choice([0, 1, 1, 2, 2, 3])); part = 'altsplice'
+        else:
+            c = CG2.gen_circ_case(rng, nvar=rng.choice([0, 1, 1, 2, 2])); part = 'circ'
+        c['runs'] = [dict(CG.gen_run(rng, rule='trypsin', exc_on=False), mnc=NO_COLLAPSE)]
         c['stream'] = 'graph'
         c['part'] = part
         out.append(c)
